@@ -70,7 +70,12 @@ class ProfileRun:
         stubs = {}
         if opaque_similarity:
             stubs = {"bldfm.pbl_model.psi": _stub_unary(PSI), "bldfm.pbl_model.phi": _stub_unary(PHI)}
-        self.res = CM.run_paths(P, "bldfm.pbl_model", "vertical_profiles", [self.n, self.zm, Tup([self.um, self.vm])], kw, stubs=stubs)
+        import interp as _I
+        _I.TRACK_CANCEL = True
+        try:
+            self.res = CM.run_paths(P, "bldfm.pbl_model", "vertical_profiles", [self.n, self.zm, Tup([self.um, self.vm])], kw, stubs=stubs)
+        finally:
+            _I.TRACK_CANCEL = False
         self.rets = [r for r in self.res if r.kind == "return"]
         self.ok = len(self.res) == 1 and len(self.rets) == 1
         if self.ok:
@@ -201,6 +206,11 @@ def profile_obligations(P):
                     sg = {"+", "0"} if alg.manifest_sign(num) <= {"+", "0"} and alg.manifest_sign(den) <= {"+", "0"} else sg
                 obs.append(req_ob("R-KPOS", site, "%s is strictly positive for every admissible input" % nm, sg == {"+"},
                                   detail=None if sg == {"+"} else "sign domain gives %s for %s/z" % (sorted(sg), nm), key={"function": "vertical_profiles", "closure": closure, "values": [nm]}))
+            # ... and the sign must survive rounding: a non-negative quantity obtained as the difference of two rounded positive
+            # ones (K - Kx) can come out zero or negative although the exact difference is positive
+            canc = [e for e in R.rets[0].events if e[0] == "float-cancel"]
+            obs.append(req_ob("R-KPOS", site, "no sign of a profile rests on the exact cancellation of two rounded quantities (sums, products and quotients of same-signed terms keep their sign in floating point, differences do not)",
+                              not canc, detail="; ".join("line %s: %s" % (e[1], e[2]) for e in canc[:2]) or None, key={"function": "vertical_profiles", "closure": closure, "clause": "rounding"}))
     # R-INVERT: z0 from ustar, then ustar back from that z0, returns identical profiles
     for closure in ("MOST", "MOSTM", "CONSTANT"):
         A = runs.get((closure, "ustar"))
@@ -503,11 +513,24 @@ def km_helper_obligations(P):
             # called as the footprint routine calls it: one-element arrays made of the caller's scalars
             za = Arr((ONE,), zmv, "inherit:zm", {"param_derived": "zm"}, "zm")
             la = Arr((ONE,), Lv, "inherit:mo_len", {"param_derived": "mo_len"}, "mo_len")
-            res = CM.run_paths(P, "bldfm.ffm_kormann_meixner", hn, [za, la], {})
+            import interp as _I
+            _I.TRACK_CANCEL = True
+            try:
+                res = CM.run_paths(P, "bldfm.ffm_kormann_meixner", hn, [za, la], {})
+            finally:
+                _I.TRACK_CANCEL = False
             rets = [r for r in res if r.kind == "return"]
             if len(res) != 1 or len(rets) != 1 or not isinstance(rets[0].value, Arr):
                 obs.append(req_ob("R-KM-FORM", site, "one straight path", False if res else None, detail=str([(r.kind, r.raise_desc, r.path) for r in res])[:300]))
                 continue
+            # neutral stratification given as an infinite Obukhov length: the published functions are finite there (z/L = 0)
+            latom = _atom(Lp)
+            def is_inf(v):
+                e = v.val if isinstance(v, Arr) else v
+                return isinstance(e, Expr) and latom in e.atoms()
+            nans = [(e[1], _I.Interp.fterm_str(e[2])) for e in rets[0].events if e[0] == "arith" and _I.Interp.fterm_at_infinity(e[2], is_inf) == "nan"]
+            obs.append(req_ob("R-KM-FORM", site, "an infinite Obukhov length (neutral stratification) gives a number: L enters only through z/L, never as inf/inf", not nans,
+                              detail="; ".join("%s: %s is inf/inf for L = +-inf" % (w, t[:80]) for w, t in nans[:2]) or None, key={"helper": hn, "stability": stab, "clause": "neutral"}))
             obs.append(eq_ob("R-KM-FORM", site, "%s is the published stability function" % hn, rets[0].value.val, sp, "K&M (2001) Eqs. 33-36", key={"helper": hn, "stability": stab}))
             ev = [e for e in rets[0].events if e[0] == "dtype"]
             obs.append(req_ob("R-DTYPE", site, "the result is not stored into storage that inherits the dtype of a caller-supplied argument (integers and floats alike)", not ev,
